@@ -27,6 +27,9 @@ pub struct SegSpec {
     pub memsz: u64,
     pub flags: u32, // PF_X=1 PF_W=2 PF_R=4
     pub seed: u64,
+    /// explicit contents (hex) instead of the seeded fill
+    #[serde(default)]
+    pub data: Option<String>,
 }
 
 #[derive(Serialize, Deserialize, Clone, Debug, PartialEq)]
@@ -80,6 +83,11 @@ pub struct Built {
 }
 
 pub fn seg_bytes(s: &SegSpec) -> Vec<u8> {
+    if let Some(d) = &s.data {
+        let mut b = crate::common::from_hex(d);
+        b.resize(s.filesz as usize, 0x90);
+        return b;
+    }
     let mut r = Rng::new(s.seed);
     let mut b = r.bytes(s.filesz as usize);
     // never all-zero so that "file bytes appear" is distinguishable from "zero fill"
